@@ -1497,7 +1497,12 @@ class SyncObj(object):
                 # position we have): trim the log instead of dropping the entries that follow the dump.
                 self.__deleteEntriesTo(data[2][1])
 
-            if len(self.__raftLog) < 2 or \
+            if len(self.__raftLog) >= 1 and (self.__raftLog[0] == data[1] or self.__raftLog[0][1] == data[1][1] + 1):
+                # The log was trimmed for a newer dump than the one on disk (an older snapshot received from
+                # the leader has replaced the file and the node stopped before it wrote a new one): it begins
+                # with the dump's last entry or right after it - keep it, what follows is not in any dump.
+                pass
+            elif len(self.__raftLog) < 2 or \
                     self.__raftLog[0] != data[2] or \
                     self.__raftLog[1] != data[1]:
                 self.__raftLog.clear()
